@@ -69,3 +69,35 @@ Proof.
   - exists w_not_after_cmp. destruct C01_kernel_invert_parens_refuted as [H1 [H2 [_ H4]]]. auto.
 Qed.
 Print Assumptions C01_kernel_invert_pinned_refuted.
+
+(** fix-empty-sequence-comparison: whatever replaces a matching comparison (`not x`, `bool(x)`, the bare `x`) is well-formed;
+    in context the pinned form (245fc22: no parentheses on the new `not`) could print `2 // not v1`.  (fixed by e665074) *)
+Theorem C01_kernel_empty_seq_wf : forall cfg in_test e,
+  wf e = true -> wf (empty_seq_new cfg (empty_seq_action in_test e) e) = true.
+Proof. exact RewriteFacts.C01_kernel_empty_seq_wf. Qed.
+Print Assumptions C01_kernel_empty_seq_wf.
+Theorem C01_kernel_empty_seq_pinned_refuted :
+  wf w_es_floordiv = true /\ wf (empty_seq_file Types_Kernels.pinned_empty_seq false w_es_floordiv) = false /\
+  pp (empty_seq_file Types_Kernels.pinned_empty_seq false w_es_floordiv) = w_es_floordiv_text /\
+  wf (empty_seq_file Types_Kernels.repaired_empty_seq false w_es_floordiv) = true.
+Proof. exact RewriteFacts.C01_kernel_empty_seq_pinned_refuted. Qed.
+Print Assumptions C01_kernel_empty_seq_pinned_refuted.
+Example C01_kernel_empty_seq_example :
+  wf (ECmp true (EName 1%N) [(NotEq, ETuple [])]) = true /\
+  empty_seq_new empty_seq_cfg_v (empty_seq_action false (ECmp true (EName 1%N) [(NotEq, ETuple [])])) (ECmp true (EName 1%N) [(NotEq, ETuple [])])
+  = ECall BBool [EName 1%N].
+Proof. vm_compute. split; reflexivity. Qed.
+
+(** literal-or-new-object-identity only swaps the operator *)
+Theorem C01_kernel_identity_wf : forall e e', identity_f e = Some e' -> wf e = true -> wf e' = true.
+Proof. exact RewriteFacts.C01_kernel_identity_wf. Qed.
+Print Assumptions C01_kernel_identity_wf.
+Example C01_kernel_identity_example : identity_f (ECmp true (EName 1%N) [(IsNot, EList [])]) = Some (ECmp true (EName 1%N) [(NotEq, EList [])]).
+Proof. reflexivity. Qed.
+
+(** use-set-literal inside an f-string replacement field (outside MiniPy): the replacement's text starts with `{`, which would
+    join the field's own brace; the current source keeps them apart (4169bc3), the pinned form did not. *)
+Theorem C01_kernel_set_literal_brace_first : forall a es,
+  exists rest, pp (rw_set_literal (ECall BSet [EList (a :: es)])) = 123%N :: rest.
+Proof. exact RewriteFacts.C01_kernel_set_literal_brace_first. Qed.
+Print Assumptions C01_kernel_set_literal_brace_first.
